@@ -1,7 +1,7 @@
 #!/bin/bash
 # confirm + check seeds sequentially; args like C05 (wave 1) or C05:2 (wave 2)
 for a in "$@"; do
-  i=${a%%:*}; w=""; sfx=""; [[ "$a" == *:2 ]] && { w=2; sfx=b; }; [[ "$a" == *:3 ]] && { w=3; sfx=c; }; [[ "$a" == *:4 ]] && { w=4; sfx=d; }; [[ "$a" == *:5 ]] && { w=5; sfx=e; }; [[ "$a" == *:6 ]] && { w=6; sfx=f; }; [[ "$a" == *:7 ]] && { w=7; sfx=g; }
+  i=${a%%:*}; w=""; sfx=""; [[ "$a" == *:2 ]] && { w=2; sfx=b; }; [[ "$a" == *:3 ]] && { w=3; sfx=c; }; [[ "$a" == *:4 ]] && { w=4; sfx=d; }; [[ "$a" == *:5 ]] && { w=5; sfx=e; }; [[ "$a" == *:6 ]] && { w=6; sfx=f; }; [[ "$a" == *:7 ]] && { w=7; sfx=g; }; [[ "$a" == *:8 ]] && { w=8; sfx=h; }; [[ "$a" == *:9 ]] && { w=9; sfx=i; }
   if [ ! -f /verif/seeded/$i$sfx/confirm.json ]; then /verif/tools/confirm_seed.sh $i $w; fi
   if [ -f /verif/seeded/$i$sfx/confirm.json ] && [ ! -f /verif/seeded/$i$sfx/check_result.json ]; then /verif/tools/seedcheck.sh $i$sfx; fi
 done
